@@ -449,6 +449,28 @@ pub fn run(ctx: &mut Ctx) {
             start = if rng.chance(1, 2) { vec![t] } else { vec![t, var(p)] };
             force.push("let-intro");
         }
+        if !bad && force.is_empty() && rng.chance(1, 10) {
+            // a class with a binder is created over the free slot `$1` and reached again over `$0` — the name stored shapes use for
+            // their first binder; the substitution `?b[(var $x) := ?e]` then rebuilds the class's term for an invocation with `$0`
+            let var = |c: u32| ATerm { v: 2, fields: vec![CField::Slot(c)], children: vec![] };
+            let bin = |v: usize, a: ATerm, b: ATerm| ATerm { v, fields: vec![CField::App, CField::App], children: vec![a, b] };
+            let sum = |x: u32, b: ATerm| ATerm { v: 6, fields: vec![CField::Bind(x, Box::new(CField::App))], children: vec![b] };
+            let lt = |x: u32, b: ATerm, e: ATerm| ATerm { v: 3, fields: vec![CField::Bind(x, Box::new(CField::App)), CField::App], children: vec![b, e] };
+            let num = |s: &str| ATerm { v: 15, fields: vec![CField::Lit(s.into())], children: vec![] };
+            let (x, i) = (18u32, 10u32);
+            let body = |free: u32, rng: &mut Rng| match rng.below(3) {
+                0 => sum(i, bin(5, var(i), var(free))),
+                1 => sum(i, bin(4, bin(5, var(i), var(free)), var(x))),
+                _ => sum(i, bin(5, var(free), bin(4, var(i), var(i)))),
+            };
+            let k = rng.below(3);
+            let mut r1 = Rng::new(k as u64 + 1);
+            let mut r2 = Rng::new(k as u64 + 1);
+            let t1 = lt(x, body(4, &mut r1), num("1"));
+            let t2 = lt(x, body(0, &mut r2), num("2"));
+            start = vec![t1, t2];
+            force.push("let-subst");
+        }
         let mut force_ext = false;
         if !bad && force.is_empty() && rng.chance(1, 8) {
             // nested bindings: the body of the outer redex is itself a redex. Both are matched in the same round; once the inner
